@@ -65,7 +65,8 @@ const (
 	FeatQuickRetry     = 262144  // C18: the application calls the pairing API within 500 ms of a handshake state change
 	FeatEventOrder     = 524288  // events due at the same instant are ordered by queue, not by creation
 	FeatMoreInputs     = 1048576 // C12: several closing events in a row; C06: large datagrams; C04: hello matrix; C10/C01 hub: user passes label spellings of SKIs
-	FeatAll            = 2097151
+	FeatChildFirst     = 2097152 // scheduler: at a go statement the new goroutine may run before the spawning one continues (in half of the runs, for 5% or 30% of the go statements)
+	FeatAll            = 4194303
 )
 
 // SetFeatForRig forces the dual-stack options of the next hub rig (workloads
@@ -379,6 +380,9 @@ func runInBubble(t *testing.T, sc *Scenario, spec RunSpec, res *RunResult) {
 	}
 	if spec.Stalls && sc.Parallel == 0 && !sc.NoStalls {
 		cfg.StallProb = 0.004
+	}
+	if spec.Feat&FeatChildFirst != 0 {
+		cfg.ChildFirst = []float64{0.3, 0.05, 0, 0}[(spec.Seed>>14)%4]
 	}
 	if spec.MaxSteps > 0 && spec.MaxSteps < cfg.MaxSteps {
 		// diagnosis only: look at the beginning of a long run
